@@ -256,6 +256,11 @@ _MNEMONICS = {
                 r"vpmaxu[bw]|vpcmpeq[bw]|vpcmpu?[bw]|vpunpck[lh]bw|vpunpck[lh]wd|vpack[us]swb|vpmullw|vps[lr]lw|vpabs[bw])\b.*(%zmm|%k[0-7])",
     "avx512vl": r"\b(vmovdqu(8|16|32|64)|vmovdqa(32|64)|vpternlog[dq]|valign[dq]|vpcmp\w*)\b(?!.*%zmm).*(%[xy]mm|%k[0-7])|%[xy]mm(1[6-9]|2[0-9]|3[01])|%[xy]mm\d+\{%k",
     "avx512f": r"%zmm|%k[0-7]",
+    "avx2": r"\bvp\w+\b.*%ymm|\bvpgather|\bv(inserti128|extracti128|perm2i128|permd|permq|pbroadcast[bwdq])\b",
+    "avx": r"%ymm|\tv[a-z]",
+    "sse42": r"\b(crc32[bwlq]?|pcmp[ei]str[im]|pcmpgtq|popcnt)\b",
+    "sse41": r"\b(pextr[bdq]|pinsr[bdq]|pmovzx\w+|pmovsx\w+|ptest|pblend\w+|pmulld|pminu[wd]|pmaxu[wd]|pmins[bd]|pmaxs[bd]|roundp[sd])\b",
+    "ssse3": r"\b(pshufb|palignr|pabs[bwd]|phadd\w+|pmaddubsw)\b",
 }
 
 
@@ -302,11 +307,18 @@ def check_dispatcher(rep, tier, rng, an, summary, drv, run_):
         for m in range(1 << len(detected)):
             masks.append([f for i, f in enumerate(detected) if m >> i & 1])
     else:
-        others = [f for f in detected if f not in relevant]
+        # every capability set a real CPU can report (closed under the nesting of the extensions) ...
+        for m in range(1 << len(detected)):
+            fs = [f for i, f in enumerate(detected) if m >> i & 1]
+            if closure(fs, None) & set(detected) == set(fs):
+                masks.append(fs)
+        # ... every combination of the features the table tests, alone ...
         for m in range(1 << len(relevant)):
-            keep = [f for i, f in enumerate(relevant) if m >> i & 1]
-            masks.append(sorted(keep + [f for f in others if rng.random() < 0.7], key=detected.index))
-        for _ in range(24):
+            fs = [f for i, f in enumerate(relevant) if m >> i & 1]
+            if fs not in masks:
+                masks.append(fs)
+        # ... and random ones
+        for _ in range(16):
             masks.append([f for f in detected if rng.random() < 0.5])
     host, _, _ = vlib.run_lines(drv, ["dispatch"])
     hostcaps, _ = parse_dispatch_line(host[0] if host else "")
